@@ -1,7 +1,7 @@
 #!/bin/sh
 # run every check of one tier in sequence; one summary line per check (log: work/run_all_<tier>.log)
 tier=${1:-quick}; shift
-cd /verif
+cd "$(dirname "$0")"
 mkdir -p work
 for c in ${@:-C01 C02 C03 C04 C05 C06 C07 C08 C09 C10 C11 C12 C13 C14 C15 C16 C17 C18 C19 C20}; do
   s=$(date +%s)
